@@ -421,7 +421,7 @@ pub fn run_history(next: &mut dyn FnMut(usize, &Model, &mut Rng) -> Option<Sym>,
 
 impl C09 {
     pub fn enum_len(tier: Tier) -> usize {
-        tier.pick(4, 5)
+        tier.pick(5, 6)
     }
 }
 
@@ -430,7 +430,7 @@ impl Check for C09 {
         "C09"
     }
     fn plan(&self, tier: Tier) -> Plan {
-        let mut p = Plan::new(196 + tier.pick(30_000, 1_200_000), tier.pick(40.0, 540.0));
+        let mut p = Plan::new(196 + tier.pick(300_000, 30_000_000), tier.pick(35.0, 480.0));
         p.mandatory = 196;
         p.cpu_budget_s = 120.0;
         p
@@ -471,7 +471,7 @@ impl Check for C09 {
         run_history(&mut it, rng, out);
     }
     fn rule(&self) -> String {
-        "histories over peer messages {connect (good / no app / non-object), createStream, publish and play (good, other key, too few, ill-typed key, bad mode, ill-typed mode; on the first, last, a deleted, a never-created stream id and stream 0), closeStream/deleteStream (same stream choices, or no argument), audio, video, @setDataFrame+onMetaData (well formed or not), other data, ping request, unknown command} encoded by the independent encoder, and application calls {accept/reject with the oldest, newest, an already-used and a never-issued id; send audio/video/metadata; finish_playing; ping}. Random walks of 5-80 steps, one third of the steps biased towards protocol progress, the rest uniform (rare orders: commands before connect, re-publish after close, second publisher, media on closed streams, second connect). Bounded exhaustive: all sequences of length 4 (thorough 5) over a 14-symbol reduced alphabet. After every step events, decoded responses and Ok/Err are compared with model::server. distinct = hash of the (model state class, symbol) sequence.".to_string()
+        "histories over peer messages {connect (good / no app / non-object), createStream, publish and play (good, other key, too few, ill-typed key, bad mode, ill-typed mode; on the first, last, a deleted, a never-created stream id and stream 0), closeStream/deleteStream (same stream choices, or no argument), audio, video, @setDataFrame+onMetaData (well formed or not), other data, ping request, unknown command} encoded by the independent encoder, and application calls {accept/reject with the oldest, newest, an already-used and a never-issued id; send audio/video/metadata; finish_playing; ping}. Random walks of 5-80 steps, one third of the steps biased towards protocol progress, the rest uniform (rare orders: commands before connect, re-publish after close, second publisher, media on closed streams, second connect). Bounded exhaustive: all sequences of length 5 (thorough 6) over a 14-symbol reduced alphabet. After every step events, decoded responses and Ok/Err are compared with model::server. distinct = hash of the (model state class, symbol) sequence.".to_string()
     }
     fn assumptions(&self) -> Vec<String> {
         vec![
